@@ -5,7 +5,8 @@ sets in quick, the full 3 x 256 x 256 x 2 cube in thorough): routing is a functi
 decodes to exactly that message, everything that routes nowhere is rejected.  Stage B: every point is printed as an input.
 Stage C: the real decoders run on every point (plus nil, empty, every too-short prefix) and the real encoder dispatch runs on all
 44 message types, both families x all 256 type values without a body, and no family at all; TLC judges the observed body
-pointers (by reflection), header view and error values against NasDispatch."""
+pointers (by reflection), header view and error values against NasDispatch.
+Added after seeded rounds 3-5: nested messages in every container-like element; routed instances inside security-protected envelopes; held decodes (`dechold`); bodies of both family pointers are counted."""
 import json, os, sys
 sys.path.insert(0, os.path.dirname(os.path.abspath(__file__)))
 from codec_common import *
